@@ -235,22 +235,17 @@ theorem mapMemberFail_succ (sel : BClass → AList MemberKey MemberKey) (r : BTa
   | succ n ih =>
     intro o res h
     rw [mapMemberFail] at h ⊢
-    cases hl : AList.lookup o r with
-    | none => rw [hl] at h; exact h
-    | some cls =>
-      rw [hl] at h
+    cases hk : declares sel r key o with
+    | some v => rw [hk] at h; exact h
+    | none =>
+      rw [hk] at h
       simp only at h ⊢
-      cases hk : AList.lookup key (sel cls) with
-      | some v => rw [hk] at h; exact h
-      | none =>
-        rw [hk] at h
+      cases hs : AList.lookup o sup with
+      | none => rw [hs] at h; exact h
+      | some ss =>
+        rw [hs] at h
         simp only at h ⊢
-        cases hs : AList.lookup o sup with
-        | none => rw [hs] at h; exact h
-        | some ss =>
-          rw [hs] at h
-          simp only at h ⊢
-          exact firstSomeM_mono (fun a _ x hx => ih a x hx) h
+        exact firstSomeM_mono (fun a _ x hx => ih a x hx) h
 
 /-- more fuel never changes a definite answer -/
 theorem mapMemberFail_mono (sel : BClass → AList MemberKey MemberKey) (r : BTable) (sup : Supers) (key : MemberKey)
@@ -280,44 +275,39 @@ theorem concatM_mono {α β : Type} {f g : α → Option (List β)} {l : List α
         rw [ih (fun a' ha' => hfg a' (List.mem_cons_of_mem _ ha')) hr]
         exact h
 
-theorem dfs_succ (r : BTable) (sup : Supers) :
-    ∀ (fuel : Nat) (o : JStr) (order : List JStr), dfs r sup fuel o = some order → dfs r sup (fuel + 1) o = some order := by
+theorem dfs_succ (sup : Supers) :
+    ∀ (fuel : Nat) (o : JStr) (order : List JStr), dfs sup fuel o = some order → dfs sup (fuel + 1) o = some order := by
   intro fuel
   induction fuel with
   | zero => intro o order h; simp [dfs] at h
   | succ n ih =>
     intro o order h
     rw [dfs] at h ⊢
-    cases hl : AList.lookup o r with
-    | none => rw [hl] at h; exact h
-    | some cls =>
-      rw [hl] at h
+    cases hs : AList.lookup o sup with
+    | none => rw [hs] at h; exact h
+    | some ss =>
+      rw [hs] at h
       simp only at h ⊢
-      cases hs : AList.lookup o sup with
-      | none => rw [hs] at h; exact h
-      | some ss =>
-        rw [hs] at h
-        simp only at h ⊢
-        cases hc : concatM (fun s => dfs r sup n s) ss with
-        | none => rw [hc] at h; simp at h
-        | some l =>
-          rw [hc] at h
-          rw [concatM_mono (fun a _ x hx => ih a x hx) hc]
-          exact h
+      cases hc : concatM (fun s => dfs sup n s) ss with
+      | none => rw [hc] at h; simp at h
+      | some l =>
+        rw [hc] at h
+        rw [concatM_mono (fun a _ x hx => ih a x hx) hc]
+        exact h
 
-theorem dfs_mono (r : BTable) (sup : Supers) {f f' : Nat} (hle : f ≤ f') {o : JStr} {order : List JStr}
-    (h : dfs r sup f o = some order) : dfs r sup f' o = some order := by
+theorem dfs_mono (sup : Supers) {f f' : Nat} (hle : f ≤ f') {o : JStr} {order : List JStr}
+    (h : dfs sup f o = some order) : dfs sup f' o = some order := by
   induction hle with
   | refl => exact h
-  | step _ ih => exact dfs_succ r sup _ o order ih
+  | step _ ih => exact dfs_succ sup _ o order ih
 
 /-! ## the search is "first declaration in pre-order" -/
 
 theorem firstSomeM_concat (sel : BClass → AList MemberKey MemberKey) (r : BTable) (sup : Supers) (key : MemberKey)
     (n : Nat)
-    (ih : ∀ (o : JStr) (order : List JStr), dfs r sup n o = some order →
+    (ih : ∀ (o : JStr) (order : List JStr), dfs sup n o = some order →
       mapMemberFail sel r sup n o key = some (order.findSome? (declares sel r key))) :
-    ∀ (ss : List JStr) (l : List JStr), concatM (fun s => dfs r sup n s) ss = some l →
+    ∀ (ss : List JStr) (l : List JStr), concatM (fun s => dfs sup n s) ss = some l →
       firstSomeM (fun s => mapMemberFail sel r sup n s key) ss = some (l.findSome? (declares sel r key)) := by
   intro ss
   induction ss with
@@ -325,12 +315,12 @@ theorem firstSomeM_concat (sel : BClass → AList MemberKey MemberKey) (r : BTab
   | cons s rest ihl =>
     intro l h
     simp only [concatM] at h
-    cases hd : dfs r sup n s with
+    cases hd : dfs sup n s with
     | none => rw [hd] at h; simp at h
     | some a =>
       rw [hd] at h
       simp only at h
-      cases hc : concatM (fun s => dfs r sup n s) rest with
+      cases hc : concatM (fun s => dfs sup n s) rest with
       | none => rw [hc] at h; simp at h
       | some b =>
         rw [hc] at h
@@ -342,7 +332,7 @@ theorem firstSomeM_concat (sel : BClass → AList MemberKey MemberKey) (r : BTab
         | none => simp [ihl b hc]
 
 theorem mapMemberFail_dfs (sel : BClass → AList MemberKey MemberKey) (r : BTable) (sup : Supers) (key : MemberKey) :
-    ∀ (fuel : Nat) (o : JStr) (order : List JStr), dfs r sup fuel o = some order →
+    ∀ (fuel : Nat) (o : JStr) (order : List JStr), dfs sup fuel o = some order →
       mapMemberFail sel r sup fuel o key = some (order.findSome? (declares sel r key)) := by
   intro fuel
   induction fuel with
@@ -351,38 +341,28 @@ theorem mapMemberFail_dfs (sel : BClass → AList MemberKey MemberKey) (r : BTab
     intro o order h
     rw [dfs] at h
     rw [mapMemberFail]
-    cases hl : AList.lookup o r with
+    cases hs : AList.lookup o sup with
     | none =>
-      rw [hl] at h
+      rw [hs] at h
       simp only [Option.some.injEq] at h
       subst h
-      simp
-    | some cls =>
-      rw [hl] at h
-      simp only at h ⊢
-      have hdecl : declares sel r key o = AList.lookup key (sel cls) := by simp [declares, hl]
-      cases hs : AList.lookup o sup with
-      | none =>
-        rw [hs] at h
+      simp only [List.findSome?_cons, List.findSome?_nil]
+      cases declares sel r key o <;> rfl
+    | some ss =>
+      rw [hs] at h
+      simp only at h
+      cases hc : concatM (fun s => dfs sup n s) ss with
+      | none => rw [hc] at h; simp at h
+      | some l =>
+        rw [hc] at h
         simp only [Option.some.injEq] at h
         subst h
-        simp only [List.findSome?_cons, hdecl, List.findSome?_nil]
-        cases AList.lookup key (sel cls) <;> rfl
-      | some ss =>
-        rw [hs] at h
-        simp only at h
-        cases hc : concatM (fun s => dfs r sup n s) ss with
-        | none => rw [hc] at h; simp at h
-        | some l =>
-          rw [hc] at h
-          simp only [Option.some.injEq] at h
-          subst h
-          simp only [List.findSome?_cons, hdecl]
-          cases hk : AList.lookup key (sel cls) with
-          | some v => rfl
-          | none =>
-            simp only
-            exact firstSomeM_concat sel r sup key n ih ss l hc
+        simp only [List.findSome?_cons]
+        cases hk : declares sel r key o with
+        | some v => rfl
+        | none =>
+          simp only
+          exact firstSomeM_concat sel r sup key n ih ss l hc
 
 /-! ## acyclic providers never run out of fuel -/
 
@@ -395,29 +375,25 @@ theorem concatM_isSome {α β : Type} {f : α → Option (List β)} {l : List α
     obtain ⟨y, hy⟩ := ih (fun a' ha' => h a' (List.mem_cons_of_mem _ ha'))
     exact ⟨x ++ y, by simp [concatM, hx, hy]⟩
 
-/-- `rank` strictly decreases along the super-type edges that leave a mapped class -/
-def Ranked (r : BTable) (sup : Supers) (rank : JStr → Nat) : Prop :=
-  ∀ c ss s, (AList.lookup c r).isSome → AList.lookup c sup = some ss → s ∈ ss → rank s < rank c
+/-- `rank` strictly decreases along the super-type edges of the provider -/
+def Ranked (sup : Supers) (rank : JStr → Nat) : Prop :=
+  ∀ c ss s, AList.lookup c sup = some ss → s ∈ ss → rank s < rank c
 
-theorem dfs_ranked (r : BTable) (sup : Supers) (rank : JStr → Nat) (hr : Ranked r sup rank) :
-    ∀ (fuel : Nat) (o : JStr), rank o < fuel → ∃ order, dfs r sup fuel o = some order := by
+theorem dfs_ranked (sup : Supers) (rank : JStr → Nat) (hr : Ranked sup rank) :
+    ∀ (fuel : Nat) (o : JStr), rank o < fuel → ∃ order, dfs sup fuel o = some order := by
   intro fuel
   induction fuel with
   | zero => intro o h; omega
   | succ n ih =>
     intro o h
     rw [dfs]
-    cases hl : AList.lookup o r with
-    | none => exact ⟨[], rfl⟩
-    | some cls =>
+    cases hs : AList.lookup o sup with
+    | none => exact ⟨[o], rfl⟩
+    | some ss =>
       simp only
-      cases hs : AList.lookup o sup with
-      | none => exact ⟨[o], rfl⟩
-      | some ss =>
-        simp only
-        obtain ⟨l, hlc⟩ := concatM_isSome (f := fun s => dfs r sup n s) (l := ss)
-          (fun s hs' => ih s (by have := hr o ss s (by simp [hl]) hs hs'; omega))
-        exact ⟨o :: l, by rw [hlc]⟩
+      obtain ⟨l, hlc⟩ := concatM_isSome (f := fun s => dfs sup n s) (l := ss)
+        (fun s hs' => ih s (by have := hr o ss s hs hs'; omega))
+      exact ⟨o :: l, by rw [hlc]⟩
 
 /-- pigeonhole: a duplicate-free list inside `k` is not longer than `k` -/
 theorem nodup_subset_length {α : Type} [DecidableEq α] :
@@ -437,51 +413,48 @@ theorem nodup_subset_length {α : Type} [DecidableEq α] :
     simp only [List.length_cons]
     omega
 
-theorem mem_keys_of_lookup {o : JStr} {r : BTable} (h : (AList.lookup o r).isSome) : o ∈ r.map Prod.fst := by
-  cases hl : AList.lookup o r with
+theorem mem_keys_of_lookup_sup {o : JStr} {sup : Supers} (h : (AList.lookup o sup).isSome) : o ∈ sup.map Prod.fst := by
+  cases hl : AList.lookup o sup with
   | none => simp [hl] at h
   | some v => exact List.mem_map.mpr ⟨(o, v), AList.lookup_mem hl, rfl⟩
 
-theorem dfs_path (r : BTable) (sup : Supers) (rank : JStr → Nat) (hr : Ranked r sup rank) :
+/-- `visited` = the classes on the path from the start to (excluding) `o`: all of them rows of the provider -/
+theorem dfs_path (sup : Supers) (rank : JStr → Nat) (hr : Ranked sup rank) :
     ∀ (fuel : Nat) (o : JStr) (visited : List JStr), visited.Nodup →
-      (∀ v ∈ visited, (AList.lookup v r).isSome) → (∀ v ∈ visited, rank o < rank v) →
-      r.length + 1 ≤ fuel + visited.length → ∃ order, dfs r sup fuel o = some order := by
+      (∀ v ∈ visited, (AList.lookup v sup).isSome) → (∀ v ∈ visited, rank o < rank v) →
+      sup.length + 1 ≤ fuel + visited.length → ∃ order, dfs sup fuel o = some order := by
   intro fuel
   induction fuel with
   | zero =>
     intro o visited hnd hm _ hlen
-    have := nodup_subset_length visited (r.map Prod.fst) hnd (fun v hv => mem_keys_of_lookup (hm v hv))
+    have := nodup_subset_length visited (sup.map Prod.fst) hnd (fun v hv => mem_keys_of_lookup_sup (hm v hv))
     simp only [List.length_map] at this
     omega
   | succ n ih =>
     intro o visited hnd hm hrank hlen
     rw [dfs]
-    cases hl : AList.lookup o r with
-    | none => exact ⟨[], rfl⟩
-    | some cls =>
+    cases hs : AList.lookup o sup with
+    | none => exact ⟨[o], rfl⟩
+    | some ss =>
       simp only
-      cases hs : AList.lookup o sup with
-      | none => exact ⟨[o], rfl⟩
-      | some ss =>
-        simp only
-        have hstep : ∀ s ∈ ss, ∃ order, dfs r sup n s = some order := by
-          intro s hs'
-          have hlt := hr o ss s (by simp [hl]) hs hs'
-          apply ih s (o :: visited)
-          · refine List.nodup_cons.mpr ⟨?_, hnd⟩
-            intro ho
-            have := hrank o ho
-            omega
-          · intro v hv
-            rcases List.mem_cons.mp hv with rfl | hv
-            · simp [hl]
-            · exact hm v hv
-          · intro v hv
-            rcases List.mem_cons.mp hv with rfl | hv
-            · exact hlt
-            · have := hrank v hv; omega
-          · simp only [List.length_cons]; omega
-        obtain ⟨l, hlc⟩ := concatM_isSome (f := fun s => dfs r sup n s) (l := ss) hstep
-        exact ⟨o :: l, by rw [hlc]⟩
+      have hstep : ∀ s ∈ ss, ∃ order, dfs sup n s = some order := by
+        intro s hs'
+        have hlt := hr o ss s hs hs'
+        apply ih s (o :: visited)
+        · refine List.nodup_cons.mpr ⟨?_, hnd⟩
+          intro ho
+          have := hrank o ho
+          omega
+        · intro v hv
+          rcases List.mem_cons.mp hv with rfl | hv
+          · simp [hs]
+          · exact hm v hv
+        · intro v hv
+          rcases List.mem_cons.mp hv with rfl | hv
+          · exact hlt
+          · have := hrank v hv; omega
+        · simp only [List.length_cons]; omega
+      obtain ⟨l, hlc⟩ := concatM_isSome (f := fun s => dfs sup n s) (l := ss) hstep
+      exact ⟨o :: l, by rw [hlc]⟩
 
 end Remapper
